@@ -1,24 +1,44 @@
 // c20_legacy.cpp — C20 correspondence, part 3: operation histories on the legacy array
 // classes array::fixed_ndarray, array::hybrid_ndarray, array::dynamic_ndarray.
-// case line:  lhist S:<class> S:<op>;<op>;...
+// C20_FORMS_REV 1
+// case line:  lhist S:<class> S:<op>;<op>;...        lhistcast S:<class> S:<ops> S:<kind tag> (history, then nm::cast)
 //   class  fixed2x3 | fixed6 | hybrid12x2 | hybrid6x1 | hybrid12x3 | dynamic
-//   op     r2,3 (resize) | w5=7 (write at the 5-th index mod size) | c (copy-construct) |
+//   op     r<form>2,3 (resize, request in the given argument form of c20_forms.hpp, every form the overload set of the
+//                      class accepts; after an accepted resize a distinct value 1000*step+k is written at EVERY index) |
+//          w5=7 (write at the 5-th index mod size) | c (copy-construct) |
 //          a2,3 (assign from another object of the same class resized to (2,3), filled 100+k) |
-//          g    (assign from a generic ndarray_t of the current shape filled 200+k: templated operator=)
-// result: one record per state: <flag>|<shape>|<strides()>|<element count the object reports, or ->|<elements>
+//          g<src>      (operator= from a source array of kind <src> with the current shape, filled 200+k) |
+//          n<src>2,3   (construct a NEW object from a source array of kind <src> and shape (2,3), filled 300+k)
+//            <src>: d ndarray_t<vector,vector>  e the same column-major  f ndarray_t<vector,std::array<size_t,N>>
+//                   b ndarray_t<vector,utl::static_vector<size_t,4>>  z dynamic_ndarray  y hybrid_ndarray<.,24,N>
+//                   x fixed_ndarray (shapes (6) (2,3) (2,3,2) (3,4))   (no letter = d)
+// result: one record per state: <flag>|<shape>|<strides()>|<element count the object reports, or ->|<elements>|<raw buffer or ->
 #include "nmtools/array/ndarray.hpp"
 #include "nmtools/array/ndarray/fixed.hpp"
 #include "nmtools/array/ndarray/hybrid.hpp"
 #include "nmtools/array/ndarray/dynamic.hpp"
-#include "show.hpp"
+#include "nmtools/utility/cast.hpp"
+#include "c20_forms.hpp"
 #include <memory>
 
 namespace na = nmtools::array;
+namespace kind = nmtools::array::kind;
 using namespace vd;
 
+// both classes have a compile-time rank and the ranks differ: assignment / construction is rejected at compile time
+// (static_assert inside isequal when asserts are enabled), so it must not even be instantiated
+template <typename T, typename S> constexpr bool rank_clash() {
+    constexpr auto a = meta::fixed_dim_v<T>; constexpr auto b = meta::fixed_dim_v<S>;
+    if constexpr (meta::is_fail_v<decltype(a)> || meta::is_fail_v<decltype(b)>) return false;
+    else return (size_t)a != (size_t)b;
+}
+template <typename T, typename... A> constexpr auto resize_callable(int) -> decltype(std::declval<T&>().resize(std::declval<const A&>()...), true) { return true; }
+template <typename T, typename... A> constexpr bool resize_callable(long) { return false; }
+
 template <typename C> static std::vector<size_t> to_vec(const C& c) {
-    std::vector<size_t> r; auto n = (size_t)nm::len(c);
-    for (size_t i = 0; i < n; i++) r.push_back((size_t)nm::at(c, i));
+    std::vector<size_t> r;
+    if constexpr (meta::is_tuple_v<C>) { constexpr auto N = meta::len_v<C>; meta::template_for<N>([&](auto i){ r.push_back((size_t)nm::at(c, i)); }); }
+    else { auto n = (size_t)nm::len(c); for (size_t i = 0; i < n; i++) r.push_back((size_t)nm::at(c, i)); }
     return r;
 }
 static std::string joinv(const std::vector<size_t>& v) { return join(v.begin(), v.end()); }
@@ -32,56 +52,56 @@ static std::vector<size_t> unravel(size_t k, const std::vector<size_t>& ext) {
     return idx;
 }
 
-// ---- per-class adapters: element reference at a run-time index, reported count, resize
+// ---- per-class adapters: element reference at a run-time index, reported count, raw buffer
 template <typename T> struct adapt;
 
 template <typename E, size_t M, size_t D> struct adapt<na::hybrid_ndarray<E, M, D>> {
     using T = na::hybrid_ndarray<E, M, D>;
     static E& ref(T& a, const std::vector<size_t>& i) { typename T::shape_type s{}; for (size_t d = 0; d < D; d++) s[d] = i[d]; return a.at(s); }
     static std::string count(const T&) { return "-"; }
-    static bool can_resize(const std::vector<size_t>& s) { return s.size() == D; }
-    static const char* resize(T& a, const std::vector<size_t>& s) { typename T::shape_type t{}; for (size_t d = 0; d < D; d++) t[d] = s[d]; return a.resize(t) ? "T" : "F"; }
-    static constexpr bool has_resize = true, has_generic_assign = true;
+    static std::string raw(const T& a) { size_t n = total_of(to_vec(a.shape())); if (n > M) n = M; return join(a.buffer_.begin(), a.buffer_.begin() + n); }
+    static constexpr bool has_resize = true;
+    static constexpr size_t fix = D;      // resize(const shape_type&) / resize(ints...): only rank D is expressible
     static void scribble(T& a) { for (auto& x : a.buffer_) x = -7; }
 };
 template <typename E> struct adapt<na::dynamic_ndarray<E>> {
     using T = na::dynamic_ndarray<E>;
     static E& ref(T& a, const std::vector<size_t>& i) { return a.at(i); }
     static std::string count(const T& a) { return std::to_string((ll)a.data.size()); }
-    static bool can_resize(const std::vector<size_t>&) { return true; }
-    static const char* resize(T& a, const std::vector<size_t>& s) { a.resize(s); return "T"; }
-    static constexpr bool has_resize = true, has_generic_assign = true;
+    static std::string raw(const T& a) { return join(a.data.begin(), a.data.end()); }
+    static constexpr bool has_resize = true;
+    static constexpr size_t fix = 99;
     static void scribble(T& a) { for (auto& x : a.data) x = -7; a.resize(std::vector<size_t>{1}); }
 };
 template <typename E> struct adapt<na::fixed_ndarray<E, 2, 3>> {
     using T = na::fixed_ndarray<E, 2, 3>;
     static E& ref(T& a, const std::vector<size_t>& i) { return a(i[0], i[1]); }
     static std::string count(const T& a) { return std::to_string((ll)a.numel()); }
-    static bool can_resize(const std::vector<size_t>&) { return false; }
-    static const char* resize(T&, const std::vector<size_t>&) { return "-"; }
-    static constexpr bool has_resize = false, has_generic_assign = false;
+    static std::string raw(const T&) { return "-"; }
+    static constexpr bool has_resize = false;
+    static constexpr size_t fix = 99;
     static void scribble(T& a) { for (auto& r : a.data) for (auto& x : r) x = -7; }
 };
 template <typename E> struct adapt<na::fixed_ndarray<E, 6>> {
     using T = na::fixed_ndarray<E, 6>;
     static E& ref(T& a, const std::vector<size_t>& i) { return a(i[0]); }
     static std::string count(const T& a) { return std::to_string((ll)a.numel()); }
-    static bool can_resize(const std::vector<size_t>&) { return false; }
-    static const char* resize(T&, const std::vector<size_t>&) { return "-"; }
-    static constexpr bool has_resize = false, has_generic_assign = false;
+    static std::string raw(const T&) { return "-"; }
+    static constexpr bool has_resize = false;
+    static constexpr size_t fix = 99;
     static void scribble(T& a) { for (auto& x : a.data) x = -7; }
 };
 
 template <typename T>
-static std::string dump(T& a, const char* flag) {
+static std::string dump(T& a, const std::string& flag) {
     using ad = adapt<T>;
     auto ext = to_vec(a.shape());
-    std::string o = std::string(flag) + "|" + joinv(ext) + "|" + joinv(to_vec(a.strides())) + "|" + ad::count(a) + "|";
-    if (ext.empty()) return o + "-";
+    std::string o = flag + "|" + joinv(ext) + "|" + joinv(to_vec(a.strides())) + "|" + ad::count(a) + "|";
+    if (ext.empty()) return o + "-|" + ad::raw(a);
     size_t total = total_of(ext);
     std::vector<size_t> idx(ext.size(), 0);
     for (size_t c = 0; c < total; c++) { o += (c ? "," : "") + std::to_string((ll)ad::ref(a, idx)); next_index(idx, ext); }
-    return o;
+    return o + "|" + ad::raw(a);
 }
 
 template <typename T>
@@ -91,21 +111,69 @@ static void fill(T& a, ll base) {
     for (size_t c = 0; c < total; c++) { adapt<T>::ref(a, idx) = base + (ll)c; next_index(idx, ext); }
 }
 
+// ---- source arrays of every kind for the converting constructors / templated operator=
+template <typename S> static void fill_generic(S& g, const std::vector<size_t>& ext, ll base) {
+    std::vector<size_t> idx(ext.size(), 0); size_t total = total_of(ext);
+    for (size_t c = 0; c < total; c++) { g(idx) = base + (ll)c; next_index(idx, ext); }
+}
+template <size_t N, typename F> static std::string src_fixdim(const std::vector<size_t>& ext, ll base, F&& f) {
+    na::ndarray_t<std::vector<ll>, std::array<size_t, N>> g; g.resize(ext); fill_generic(g, ext, base); return f(g);
+}
+template <size_t N, typename F> static std::string src_hybrid(const std::vector<size_t>& ext, ll base, F&& f) {
+    na::hybrid_ndarray<ll, 24, N> g; typename na::hybrid_ndarray<ll, 24, N>::shape_type s{}; for (size_t d = 0; d < N; d++) s[d] = ext[d];
+    if (!g.resize(s)) return "U"; fill(g, base); return f(g);
+}
+template <typename F>
+static std::string with_source(char k, const std::vector<size_t>& ext, ll base, F&& f) {
+    size_t total = total_of(ext);
+    switch (k) {
+    case 'd': { dyn_t<ll> g; g.resize(ext); fill_generic(g, ext, base); return f(g); }
+    case 'e': { dyn_col_t<ll> g; g.resize(ext); fill_generic(g, ext, base); return f(g); }
+    case 'b': { if (ext.size() > 4) return "U"; na::ndarray_t<std::vector<ll>, nm::utl::static_vector<size_t, 4>> g; g.resize(ext); fill_generic(g, ext, base); return f(g); }
+    case 'z': { na::dynamic_ndarray<ll> g; g.resize(ext); fill(g, base); return f(g); }
+    case 'f': switch (ext.size()) { case 1: return src_fixdim<1>(ext, base, f); case 2: return src_fixdim<2>(ext, base, f); case 3: return src_fixdim<3>(ext, base, f); default: return "U"; }
+    case 'y': if (total > 24) return "U"; switch (ext.size()) { case 1: return src_hybrid<1>(ext, base, f); case 2: return src_hybrid<2>(ext, base, f); case 3: return src_hybrid<3>(ext, base, f); default: return "U"; }
+    case 'x': {
+        auto is = [&](std::initializer_list<size_t> l) { return std::vector<size_t>(l) == ext; };
+        if (is({6})) { na::fixed_ndarray<ll, 6> g; for (size_t c = 0; c < 6; c++) g(c) = base + (ll)c; return f(g); }
+        if (is({2, 3})) { na::fixed_ndarray<ll, 2, 3> g; for (size_t c = 0; c < 6; c++) g(c / 3, c % 3) = base + (ll)c; return f(g); }
+        if (is({3, 4})) { na::fixed_ndarray<ll, 3, 4> g; for (size_t c = 0; c < 12; c++) g(c / 4, c % 4) = base + (ll)c; return f(g); }
+        if (is({2, 3, 2})) { na::fixed_ndarray<ll, 2, 3, 2> g; for (size_t c = 0; c < 12; c++) g(c / 6, (c / 2) % 3, c % 2) = base + (ll)c; return f(g); }
+        return "U";
+    }
+    default: return "U";
+    }
+}
+
+static char src_letter(const std::string& o, size_t& at) {
+    at = 1; if (o.size() > 1 && !isdigit((unsigned char)o[1])) { at = 2; return o[1]; } return 'd';
+}
+
 template <typename T>
-static std::string run_history(const std::string& ops) {
+static bool run_ops(std::unique_ptr<T>& cur, const std::string& ops, std::string& out) {
     using ad = adapt<T>;
-    auto cur = std::make_unique<T>();
-    std::string out = dump(*cur, "-");
-    size_t p = 0;
+    cur = std::make_unique<T>();
+    out = dump(*cur, "-");
+    size_t p = 0; int step = 0;
     while (p < ops.size()) {
         size_t q = ops.find(';', p); if (q == std::string::npos) q = ops.size();
         std::string o = ops.substr(p, q - p); p = q + 1;
         if (o.empty()) continue;
-        const char* flag = "-";
+        step++;
+        std::string flag = "-";
         if (o[0] == 'r') {
-            auto sizes = vec_of<size_t>(parse_list(o.substr(1)));
-            if (!ad::has_resize || !ad::can_resize(sizes)) return "unsupported";
-            flag = ad::resize(*cur, sizes);
+            if constexpr (!ad::has_resize) { out = "unsupported"; return false; }
+            else {
+                size_t at; char form = src_letter(o, at); if (form == 'd') form = 'v';
+                auto sizes = parse_list(o.substr(at));
+                flag = c20::call_with_form<0, false, ad::fix>(form, sizes, [&](const auto&... xs) -> std::string {
+                    if constexpr (!resize_callable<T, std::decay_t<decltype(xs)>...>(0)) return "U";
+                    else if constexpr (std::is_void_v<decltype(cur->resize(xs...))>) { cur->resize(xs...); return "T"; }
+                    else return cur->resize(xs...) ? "T" : "F";
+                });
+                if (flag == "U") { out = "unsupported"; return false; }
+                if (flag == "T") fill(*cur, 1000 * (ll)step);
+            }
         } else if (o[0] == 'w') {
             size_t e = o.find('=');
             size_t k = (size_t)std::stoll(o.substr(1, e - 1)); ll v = std::stoll(o.substr(e + 1));
@@ -118,38 +186,94 @@ static std::string run_history(const std::string& ops) {
         } else if (o[0] == 'a') {
             T other;
             if constexpr (ad::has_resize) {
-                auto sizes = vec_of<size_t>(parse_list(o.substr(1)));
-                if (!ad::can_resize(sizes)) return "unsupported";
-                ad::resize(other, sizes);
+                auto sizes = parse_list(o.substr(1));
+                std::string f2 = c20::call_with_form<0, false, ad::fix>(ad::fix == 99 ? 'v' : 'a', sizes, [&](const auto&... xs) -> std::string {
+                    if constexpr (!resize_callable<T, std::decay_t<decltype(xs)>...>(0)) return "U";
+                    else { other.resize(xs...); return "T"; } });
+                if (f2 == "U") { out = "unsupported"; return false; }
             }
             fill(other, 100);
             *cur = other;
             ad::scribble(other);
         } else if (o[0] == 'g') {
-            if constexpr (ad::has_generic_assign) {
-                auto ext = to_vec(cur->shape());
-                if (ext.empty()) return "unsupported";
-                dyn_t<ll> g; g.resize(ext);
-                std::vector<size_t> idx(ext.size(), 0); size_t total = total_of(ext);
-                for (size_t c = 0; c < total; c++) { g(idx) = 200 + (ll)c; next_index(idx, ext); }
-                *cur = g;
-            } else return "unsupported";
-        } else return "unsupported";
+            size_t at; char k = src_letter(o, at);
+            auto ext = to_vec(cur->shape());
+            if (ext.empty()) { out = "unsupported"; return false; }
+            std::string r = with_source(k, ext, 200, [&](auto& src) -> std::string {
+                using S = std::decay_t<decltype(src)>;
+                if constexpr (std::is_same_v<S, T>) { *cur = src; return "T"; }
+                else if constexpr (rank_clash<T, S>()) return "U";
+                else if constexpr (std::is_assignable_v<T&, const S&> && !(meta::is_fixed_size_ndarray_v<T> && !meta::is_fixed_size_ndarray_v<S>)) { *cur = src; return "T"; }
+                else return "U";
+            });
+            if (r == "U") { out = "unsupported"; return false; }
+        } else if (o[0] == 'n') {
+            size_t at; char k = src_letter(o, at);
+            auto ext = vec_of<size_t>(parse_list(o.substr(at)));
+            std::string r = with_source(k, ext, 300, [&](auto& src) -> std::string {
+                using S = std::decay_t<decltype(src)>;
+                if constexpr (std::is_same_v<S, T>) { cur = std::make_unique<T>(src); return "T"; }
+                else if constexpr (meta::is_fixed_size_ndarray_v<T> || rank_clash<T, S>()) return "U";
+                else if constexpr (std::is_constructible_v<T, S&>) { cur = std::make_unique<T>(src); return "T"; }
+                else if constexpr (std::is_constructible_v<T, S&&>) { S tmp(src); cur = std::make_unique<T>(std::move(tmp)); return "T"; }
+                else return "U";
+            });
+            if (r == "U") { out = "unsupported"; return false; }
+        } else { out = "unsupported"; return false; }
         out += " ; " + dump(*cur, flag);
     }
-    return out;
+    return true;
+}
+
+template <typename X>
+static std::string show_any(const X& x) {
+    auto ext = to_vec(nm::shape(x));
+    std::string o = "ok " + joinv(ext) + " ;";
+    if (ext.empty()) return o;
+    size_t total = total_of(ext);
+    std::vector<size_t> idx(ext.size(), 0);
+    constexpr auto DIM = meta::fixed_dim_v<X>;
+    for (size_t c = 0; c < total; c++) {
+        if constexpr (!meta::is_fail_v<decltype(DIM)>) {
+            std::array<size_t, (size_t)DIM> ai{}; for (size_t d = 0; d < (size_t)DIM; d++) ai[d] = idx[d];
+            o += (c ? "," : " ") + num_str(nm::apply_at(x, ai));
+        } else o += (c ? "," : " ") + num_str(nm::apply_at(x, idx));
+        next_index(idx, ext);
+    }
+    return o;
+}
+template <typename Src, typename K>
+static std::string to_kind(const Src& src, const K& k) {
+    using ret_t = meta::resolve_optype_t<nm::cast_kind_t, Src, K>;
+    if constexpr (meta::is_fail_v<ret_t>) return "unsupported";
+    else { auto x = nm::cast(src, k); return show_any(x); }
+}
+
+template <typename T>
+static std::string run_case(const std::string& op, const std::string& ops, const std::string& tag) {
+    std::unique_ptr<T> cur; std::string out;
+    if (!run_ops(cur, ops, out)) return out;
+    if (op == "lhist") return out;
+    if (to_vec(cur->shape()).empty()) return "unsupported";
+#define K(name) if (tag == #name) return to_kind(*cur, kind::name);
+    K(dynamic) K(hybrid) K(fixed) K(ndarray_ls_db)
+    // see drivers/c20.cpp: the non-clipped ndarray_* tags are a hard compile error for sources with a fixed dim only
+    if constexpr (!na::is_hybrid_ndarray_v<T>) { K(ndarray_ds_db) K(ndarray_hs_hb) K(ndarray_fs_fb) K(ndarray_fs_db) K(ndarray_cs_fb) }
+#undef K
+    return "unsupported";
 }
 
 static std::string handle(const Case& c) {
-    if (c.op != "lhist") return "unsupported";
+    if (c.op != "lhist" && c.op != "lhistcast") return "unsupported";
     std::string k = c.args[0].raw.substr(2);
     std::string ops = c.args.size() > 1 ? c.args[1].raw.substr(2) : std::string();
-    if (k == "fixed2x3") return run_history<na::fixed_ndarray<ll, 2, 3>>(ops);
-    if (k == "fixed6") return run_history<na::fixed_ndarray<ll, 6>>(ops);
-    if (k == "hybrid12x2") return run_history<na::hybrid_ndarray<ll, 12, 2>>(ops);
-    if (k == "hybrid6x1") return run_history<na::hybrid_ndarray<ll, 6, 1>>(ops);
-    if (k == "hybrid12x3") return run_history<na::hybrid_ndarray<ll, 12, 3>>(ops);
-    if (k == "dynamic") return run_history<na::dynamic_ndarray<ll>>(ops);
+    std::string tag = c.args.size() > 2 ? c.args[2].raw.substr(2) : std::string();
+    if (k == "fixed2x3") return run_case<na::fixed_ndarray<ll, 2, 3>>(c.op, ops, tag);
+    if (k == "fixed6") return run_case<na::fixed_ndarray<ll, 6>>(c.op, ops, tag);
+    if (k == "hybrid12x2") return run_case<na::hybrid_ndarray<ll, 12, 2>>(c.op, ops, tag);
+    if (k == "hybrid6x1") return run_case<na::hybrid_ndarray<ll, 6, 1>>(c.op, ops, tag);
+    if (k == "hybrid12x3") return run_case<na::hybrid_ndarray<ll, 12, 3>>(c.op, ops, tag);
+    if (k == "dynamic") return run_case<na::dynamic_ndarray<ll>>(c.op, ops, tag);
     return "unsupported";
 }
 
